@@ -569,3 +569,7 @@ func init() {
 func init() {
 	ctl("MonitorAll reads the model without its lock", "L2", "MonitorAll|client.database.model read", "client", "ovsdbClient", "MonitorAll", kStmt, "db.modelMutex.RLock()", 0, del)
 }
+
+func init() {
+	ctl("monitors looked at while the cache lock is held", "L-ORDER", "order client.database.cacheMutex -> client.database.monitorsMutex", "client", "", "waitForCacheConsistent", kStmt, "if isCacheConsistent(db) {", 0, before("_ = hasMonitors(db)"))
+}
